@@ -18,6 +18,7 @@ Each name must be assigned exactly once at module level, by a plain `name = lite
 Everything else (other key shapes, other values such as 2j or 0.5, dict comprehensions, later mutation by
 a second assignment) is rejected: the check then reports the translator obligation as failed.
 """
+OUTPUTS = ['PauliTablesGen.v']      # generated files (the driver uses this to decide which properties depend on this translator)
 import ast, os
 from trlib import *
 
